@@ -13,8 +13,12 @@ PAYLOADS = [
     '&', '<', '>', '"', "'", '&"<>\'', '</TT></A><H1>x', '<input name=q>', '$(x)', '<go href="x">', '</p></card><card id="e">',
     # entity look-alikes TOGETHER with markup (a "do not double-escape" heuristic must not switch escaping off)
     '&amp;<img src=x onerror=1>', '&#38;"><svg onload=1>', '&lt;<b>&gt;', '&quot;" x="y',
+    # backslash sequences: octal, hexadecimal, group references, a lone trailing backslash -- data, never an instruction
+    '\\074script\\076alert(1)\\074/script\\076', '\\x3cimg src=x onerror=1\\x3e', '\\g<0>\\g<1>', '\\1\\2 \\\\1', 'tail\\',
+    '\\n+ADMIN:\\r\\n\\042\\076\\074b\\076',
 ]
-ALWAYS = ['"><img src=x onerror=alert(1)>', '&amp;<img src=x onerror=1>', '&#38;"><svg onload=1>']
+ALWAYS = ['"><img src=x onerror=alert(1)>', '&amp;<img src=x onerror=1>', '&#38;"><svg onload=1>',
+          '\\074script\\076alert(1)\\074/script\\076', '\\g<0>\\g<1>']
 INERT = "inert"
 
 
@@ -26,6 +30,15 @@ def _encoded_word(p):
     else:
         raw = ("E " + p + "\r\n+ADMIN:\r\n Admin: " + p).encode("utf-8", "surrogateescape")
     return "=?utf-8?b?" + base64.b64encode(raw).decode("ascii") + "?="
+
+
+def meta_value(p, hostile):
+    """the value of a metadata attribute (inside double quotes in the document)"""
+    import html as _h
+    if not hostile:
+        return "utf-8 inert"
+    pa = _h.escape(p)
+    return "utf-8\r\nX-Injected: " + pa + "\r\nSet-Cookie: a=b\r\n+ADMIN:\r\n+FAKE: " + pa + "\n+VIEWS:\n text/evil: <1k>"
 
 
 def mk_tree(p, mtime=1_700_000_000):
@@ -72,6 +85,24 @@ def mk_tree(p, mtime=1_700_000_000):
         # a title spread over several lines, some of which look like Gopher+ block headers
         {"path": "page3.html", "data": "<html><head><title>M " + p + "\n" + h("+ADMIN:\n+ABSTRACT: x\n+FAKE:\n+" + p + ":", "admin\nabstract x\nfake\ninert")
                                         + "\n tail</title></head><body></body></html>\n"},
+        # documents whose metadata (everything an extractor might read besides the title) carries line breaks
+        # followed by lines that look like HTTP headers and Gopher+ block headers
+        {"path": "page4.html", "data": "<html><head><meta charset=\"" + meta_value(p, hostile) + "\"><title>T4</title></head><body></body></html>\n"},
+        {"path": "page5.html", "data": "<html><head><meta http-equiv=\"Content-Type\" content=\"text/html; charset=" + meta_value(p, hostile)
+                                        + "\"><meta http-equiv=\"Refresh\" content=\"" + meta_value(p, hostile) + "\"><title>T5</title></head></html>\n"},
+        {"path": "page6.html", "data": "<html lang=\"" + meta_value(p, hostile) + "\"><head><title>T6</title>"
+                                        + "".join("<meta name=\"%s\" content=\"%s\">" % (n_, meta_value(p, hostile))
+                                                  for n_ in ("description", "keywords", "author", "generator", "viewport"))
+                                        + "<base href=\"" + meta_value(p, hostile) + "\"><link rel=\"alternate\" type=\"" + meta_value(p, hostile)
+                                        + "\" href=\"" + meta_value(p, hostile) + "\" title=\"" + meta_value(p, hostile) + "\">"
+                                        + "</head><body lang=\"" + meta_value(p, hostile) + "\"></body></html>\n"},
+        # search menus that list themselves (the answer to a search usually shows the search item again)
+        {"path": "smap", "kind": "dir"},
+        {"path": "smap/gophermap", "data": "7Search this map " + p + "\t/smap\n0a result\t/abs.txt\n7same, relative\t\n"},
+        {"path": "slinks", "kind": "dir"},
+        {"path": "slinks/hit.txt", "data": "hit\n"},
+        {"path": "slinks/.Links", "data": "Name=Search these links " + p + "\nType=7\nPath=/slinks\nHost=+\nPort=+\n"},
+        {"path": "self.gophermap", "data": "7Search again " + p + "\t/self.gophermap\n0a result\t/abs.txt\n"},
         # text documents (converted to WML for WAP) with every kind of ending
         {"path": "text2.txt", "data": "first line\n" + p},                                   # last line not terminated
         {"path": "text3.txt", "data": p + "\r" + p + "\r" + h("<b>", "bbb")},                  # CR only
@@ -109,11 +140,22 @@ def mk_requests(p):
         R.append((f"{proto}:doc-named", b"GET " + pre + b"/f1-" + fq + b".txt HTTP/1.0\r\n\r\n", tls))
         for n in (b"1", b"2", b"3"):
             R.append((f"{proto}:mail-{n.decode()}", b"GET " + pre + b"/mail.mbox%7C/MBOX-MESSAGE/" + n + b" HTTP/1.0\r\n\r\n", tls))
+        for n in (b"", b"2", b"3", b"4", b"5", b"6"):
+            R.append((f"{proto}:html-doc{n.decode()}", b"GET " + pre + b"/page" + n + b".html HTTP/1.0\r\n\r\n", tls))
+            R.append((f"{proto}:html-doc{n.decode()}:head", b"HEAD " + pre + b"/page" + n + b".html HTTP/1.0\r\n\r\n", tls))
+        for path in (b"/smap", b"/slinks", b"/self.gophermap"):
+            R.append((f"{proto}:search-self:{path.decode()}", b"GET " + pre + path + b"?searchrequest=" + q + b" HTTP/1.0\r\n\r\n", tls))
         R.append((f"{proto}:head", b"HEAD " + pre + b"/f1-" + gen.pct(p.replace("/", "_").encode(), safe=b"") + b".txt HTTP/1.0\r\n\r\n", tls))
     # a WAP browser recognised by its headers alone (no /wap prefix)
     R.append(("wap:auto-hdr:/", b"GET / HTTP/1.0\r\n" + hostile_headers(p, wap=True) + b"\r\n", False))
+    for path in (b"/smap", b"/slinks", b"/self.gophermap"):
+        R.append(("wap:auto-search-self:" + path.decode(), b"GET " + path + b"?searchrequest=" + q + b" HTTP/1.0\r\n"
+                  + hostile_headers(p, wap=True) + b"\r\n", False))
+        sq = p.replace("\t", " ").replace("\r", " ").replace("\n", " ").encode("utf-8", "surrogateescape")
+        R.append(("gopherplus:$:" + path.decode() + "?", path + b"\t" + sq + b"\t$\r\n", False))
     for path in (b"/", b"/umn", b"/maps", b"/abs.txt", b"/long.txt", b"/mail.mbox", b"/mail.mbox|/MBOX-MESSAGE/1", b"/mail.mbox|/MBOX-MESSAGE/2",
-                 b"/mail.mbox|/MBOX-MESSAGE/3", b"/page.html", b"/page2.html", b"/page3.html"):
+                 b"/mail.mbox|/MBOX-MESSAGE/3", b"/page.html", b"/page2.html", b"/page3.html", b"/page4.html", b"/page5.html", b"/page6.html",
+                 b"/smap", b"/slinks", b"/self.gophermap"):
         R.append(("gopherplus:$:" + path.decode(), path + b"\t$\r\n", False))
         R.append(("gopherplus:!:" + path.decode(), path + b"\t!\r\n", False))
         R.append(("sgopherplus:!:" + path.decode(), path + b"\t!\r\n", True))
@@ -135,7 +177,7 @@ def hostile_headers(p, wap=False):
     return b"".join(l + b"\r\n" for l in lines)
 
 
-GPLUS_DIRS = {"/", "/umn", "/maps", "/mail.mbox"}
+GPLUS_DIRS = {"/", "/umn", "/maps", "/mail.mbox", "/smap", "/slinks", "/self.gophermap", "/smap?", "/slinks?", "/self.gophermap?"}
 GPLUS_BLOCKS = {b"+INFO", b"+ADMIN", b"+VIEWS", b"+ABSTRACT", b"+KEYWORDS", b"+ASK", b"+3D", b"+URL"}
 
 
